@@ -21,6 +21,7 @@ import json
 import math
 import multiprocessing
 import os
+import random
 import tempfile
 import threading
 import time
@@ -185,7 +186,10 @@ def gen_table(ctx: Ctx, force: Optional[str] = None) -> Dict[str, Any]:
             else:
                 vals.append(rng.choice(BOOLS))
         cols.append({"name": rng.choice(["a", "b", "c", "x y", "ü", "col"]) + str(i), "kind": "int" if kind == "bigint" else kind, "vals": vals})
-    return {"cols": cols, "nrows": nrows, "pd_nullable": rng.random() < 0.25, "pd_index": rng.random() < 0.08 and nrows > 0}
+    # PythonDict rows are dicts: the same key set may come in a different insertion order in every row (rows assembled by
+    # different code paths); `py_perm` seeds a per-row permutation of the key order
+    py_perm = rng.randint(1, 10**6) if (ncols >= 2 and nrows >= 2 and rng.random() < 0.6) else None
+    return {"cols": cols, "nrows": nrows, "pd_nullable": rng.random() < 0.25, "pd_index": rng.random() < 0.08 and nrows > 0, "py_perm": py_perm}
 
 
 def enc_vals(vals: List[Any]) -> List[Any]:
@@ -226,7 +230,14 @@ def build_native(spec: Dict[str, Any], fw: str) -> Any:
         return df
     if fw == "py":
         n = spec["nrows"]
-        return [{c["name"]: c["vals"][i] for c in cols} for i in range(n)]
+        rows = []
+        prng = random.Random(spec["py_perm"]) if spec.get("py_perm") else None
+        for i in range(n):
+            order = list(cols)
+            if prng is not None and i > 0:
+                prng.shuffle(order)  # row 0 keeps the canonical order (it names the columns), later rows are permuted
+            rows.append({c["name"]: c["vals"][i] for c in order})
+        return rows
     raise ValueError(fw)
 
 
@@ -693,11 +704,13 @@ def gen_hop_cases(ctx: Ctx, n_tables: int) -> List[Dict[str, Any]]:
         {"cols": [{"name": "k", "kind": "int", "vals": [3, None, -7]}, {"name": "f", "kind": "float", "vals": [-0.0, float("nan"), None]},
                   {"name": "s", "kind": "str", "vals": ["", "漢字", None]}, {"name": "b", "kind": "bool", "vals": [True, None, False]}], "nrows": 3},
         {"cols": [{"name": "k", "kind": "int", "vals": [5, 6, 7]}], "nrows": 3, "pd_index": True},
+        {"cols": [{"name": "qty", "kind": "int", "vals": [1, 2, 3]}, {"name": "price", "kind": "int", "vals": [10, 20, 30]},
+                  {"name": "w", "kind": "float", "vals": [0.5, 1.5, -0.25]}], "nrows": 3, "py_perm": 7},
     ]  # fmt: skip
     for spec in w:
         if spec["nrows"] == 0:
             spec = dict(spec, cols=[dict(c, vals=[]) for c in spec["cols"]])
-        spec = encode_spec(dict({"pd_nullable": False, "pd_index": False}, **spec))
+        spec = encode_spec(dict({"pd_nullable": False, "pd_index": False, "py_perm": None}, **spec))
         for s, d in itertools.permutations(fws, 2):
             cases.append({"table": spec, "src": s, "dst": d, "path": "tfs"})
             cases.append({"table": spec, "src": s, "dst": d, "path": "roundtrip"})
@@ -735,7 +748,7 @@ def check_hops(ctx: Ctx, cases: List[Dict[str, Any]]) -> None:
         spec = case["table"]
         flat = [c for col in (src_norm or []) for c in col["cells"]]
         nontriv = spec["nrows"] == 0 or any(c[0] in ("null", "nan", "negzero", "inf", "ninf") for c in flat) or any(c[0] == "str" and (c[1] == "" or not c[1].isascii()) for c in flat) or any(c[0] == "flt" and len(c[1]) > 15 for c in flat)  # fmt: skip
-        ctx.case("hops", case, nontriv, path=case["path"], pair=f"{case['src']}->{case['dst']}", nrows=spec["nrows"])
+        ctx.case("hops", case, nontriv, path=case["path"], pair=f"{case['src']}->{case['dst']}", nrows=spec["nrows"], py_rows_permuted=bool(spec.get("py_perm")) and case["src"] == "py")
         # model: hop sequence + result type
         mo = outs[k0 : k0 + nm]
         m_hops: List[str] = []
@@ -801,6 +814,46 @@ def suite_illtyped(ctx: Ctx) -> None:
                 ctx.case("illtyped", [t.__name__, dirn, name], True)
                 if not ok:
                     ctx.disagree("illtyped", [t.__name__, dirn, name], f"returned {type(out).__name__}", "model assumption: a hop rejects a value of the wrong run-time type")
+
+
+def suite_ragged(ctx: Ctx) -> None:
+    """Row dicts whose key SETS differ (a missing or an extra key) are not a table: the unchanged hop defines the behaviour
+    (ValueError 'Inconsistent schema'); converting them silently would drop or invent values."""
+    from mloda_plugins.compute_framework.base_implementations.python_dict.python_dict_pyarrow_transformer import PythonDictPyArrowTransformer
+    import pyarrow as pa
+
+    for k in range(ctx.budget(40, 400)):
+        rng = ctx.rng
+        names = rng.sample(["a", "b", "c", "d"], rng.randint(2, 4))
+        n = rng.randint(2, 4)
+        rows = []
+        for i in range(n):
+            order = list(names)
+            if i:
+                rng.shuffle(order)
+            rows.append({c: rng.randint(-5, 9) for c in order})
+        kind = rng.choice(["missing", "extra", "both"])
+        j = rng.randrange(1, n)
+        if kind in ("missing", "both"):
+            del rows[j][rng.choice(list(rows[j]))]
+        if kind in ("extra", "both"):
+            rows[j]["zz"] = 1
+        via = rng.choice(["hop", "tfs_pa", "tfs_pd"])
+        try:
+            if via == "hop":
+                out = PythonDictPyArrowTransformer.transform(list, pa.Table, rows, None)
+            else:
+                dst = F.FW_SHORT["pa" if via == "tfs_pa" else "pd"]
+                out = mk_tfs(F.FW_SHORT["py"], dst).transform(mk_cfw(dst), rows, set())
+            got = "converted:" + json.dumps(norm_table(out))[:200]
+        except ValueError as e:
+            got = "rejected" if "Inconsistent schema" in str(e) else "ValueError:" + str(e)[:80]
+        except Exception as e:  # noqa: BLE001
+            got = type(e).__name__ + ":" + str(e)[:80]
+        case = {"rows": rows, "kind": kind, "via": via}
+        ctx.case("ragged", case, True, ragged=kind)
+        if got != "rejected":
+            ctx.violation("ragged", case, f"rows with differing key sets ({kind} key in row {j}) via {via}: {got} (the hop defines: ValueError 'Inconsistent schema')", got, "rejected")
 
 
 # --------------------------------------------------------------------------------------
@@ -1039,6 +1092,7 @@ def run(ctx: Ctx) -> None:
     try:
         suite_registry(ctx)
         suite_illtyped(ctx)
+        suite_ragged(ctx)
         suite_synthetic(ctx)
         cases = gen_hop_cases(ctx, ctx.budget(400, 6000))
         for i in range(0, len(cases), 4000):
